@@ -58,6 +58,8 @@ type OffJ struct {
 	Zone          string `json:"zone"`
 	CapacityType  string `json:"capacityType"`
 	ReservationID string `json:"reservationID"`
+	// listed by the provider, but capacity cannot be launched into it right now (Offering.Available = false)
+	Unavailable bool `json:"unavailable,omitempty"`
 }
 
 type ITJ struct {
@@ -151,7 +153,7 @@ func buildOfferings(ofs []OffJ) cloudprovider.Offerings {
 		} else {
 			reqs.Add(scheduling.NewRequirement(cloudprovider.ReservationIDLabel, corev1.NodeSelectorOpDoesNotExist))
 		}
-		out = append(out, &cloudprovider.Offering{Requirements: reqs, Price: 1, Available: true, ReservationCapacity: 1})
+		out = append(out, &cloudprovider.Offering{Requirements: reqs, Price: 1, Available: !o.Unavailable, ReservationCapacity: 1})
 	}
 	return out
 }
@@ -655,7 +657,8 @@ func genProv(r *rand.Rand) ProvJ {
 				if r.Float64() < 0.35 {
 					continue
 				}
-				o := OffJ{Zone: z, CapacityType: ct}
+				// a quarter of the listed offerings is sold out at the moment
+				o := OffJ{Zone: z, CapacityType: ct, Unavailable: r.Float64() < 0.25}
 				if ct == "reserved" {
 					o.ReservationID = pick(r, []string{"r-1", "r-2"})
 				}
@@ -674,6 +677,22 @@ func genProv(r *rand.Rand) ProvJ {
 		p.DriftErr = true
 	}
 	return p
+}
+
+// genAvailability: the same catalogue (instance types, offerings, answers) with capacity coming and going — every offering
+// is sold out with probability p.
+func genAvailability(r *rand.Rand, cur ProvJ, p float64) ProvJ {
+	nw := cur
+	nw.ITs = []ITJ{}
+	for _, it := range cur.ITs {
+		c := ITJ{Name: it.Name, Offerings: []OffJ{}}
+		for _, o := range it.Offerings {
+			o.Unavailable = r.Float64() < p
+			c.Offerings = append(c.Offerings, o)
+		}
+		nw.ITs = append(nw.ITs, c)
+	}
+	return nw
 }
 
 func genVersion(r *rand.Rand) *string {
@@ -769,6 +788,12 @@ func genDrift(r *rand.Rand, t core.Tier) any {
 		nSteps = 1 + r.IntN(14)
 	}
 	cur := in.Pool
+	curProv := in.Prov
+	// the launch offerings of the initial NodeClaims sold out from the start, now and then
+	if r.Float64() < 0.15 {
+		in.Prov = genAvailability(r, in.Prov, 1)
+		curProv = in.Prov
+	}
 	names := []string{}
 	for _, c := range in.Claims {
 		names = append(names, c.Name)
@@ -880,6 +905,11 @@ func genDrift(r *rand.Rand, t core.Tier) any {
 			st = StepJ{K: "launched", Claim: claimName(), Launched: r.Float64() < 0.5}
 		case x < 0.92:
 			p := genProv(r)
+			if r.Float64() < 0.5 {
+				// only the availability of the listed offerings changes (capacity sells out / returns)
+				p = genAvailability(r, curProv, pick(r, []float64{0.5, 1, 1, 0}))
+			}
+			curProv = p
 			st = StepJ{K: "prov", Prov: &p}
 		case x < 0.98:
 			st = StepJ{K: "advance", Min: pick(r, []int64{1, 29, 31, 60, 120})}
@@ -916,11 +946,46 @@ func driftFeatures(in *DriftIn, impl any) []string {
 	snaps, _ := m["snaps"].([]any)
 	// in which state of the NodePool's annotation are NodeClaims created, and are they looked at afterwards
 	created := map[string]bool{}
+	prov := in.Prov
 	for i, st := range in.Steps {
 		if i >= len(snaps) {
 			break
 		}
 		pre, _ := snaps[i].(map[string]any)
+		if st.K == "prov" && st.Prov != nil {
+			prov = *st.Prov
+		}
+		if st.K == "reconcile" {
+			// is every listed offering of the NodeClaim's instance type in its zone and of its capacity type sold out?
+			cs, _ := pre["claims"].([]any)
+			for _, c := range cs {
+				cm, _ := c.(map[string]any)
+				if cm["name"] != st.Claim {
+					continue
+				}
+				lb := map[string]string{}
+				for _, kv := range asPairs(cm["labels"]) {
+					lb[kv[0]] = kv[1]
+				}
+				listed, available := 0, 0
+				for _, it := range prov.ITs {
+					if it.Name != lb[corev1.LabelInstanceTypeStable] {
+						continue
+					}
+					for _, o := range it.Offerings {
+						if o.Zone == lb[corev1.LabelTopologyZone] && o.CapacityType == lb[v1.CapacityTypeLabelKey] {
+							listed++
+							if !o.Unavailable {
+								available++
+							}
+						}
+					}
+				}
+				if listed > 0 && available == 0 {
+					l = append(l, "reconcile:launch-offering-listed-but-sold-out")
+				}
+			}
+		}
 		switch st.K {
 		case "create":
 			if p, _ := pre["poolPresent"].(bool); !p {
@@ -982,7 +1047,7 @@ func driftFeatures(in *DriftIn, impl any) []string {
 func driftOp() *core.Op {
 	return &core.Op{
 		Name: "c15.drift",
-		Doc:  "histories on the fake client: the real nodepool/hash controller and the real nodeclaim/disruption controller (drift sub-reconciler) between edits of the NodePool template/requirements, NodeClaim labels, hash / hash-version annotations, the Launched condition, provider answers (instance types, offerings, IsDrifted, errors), the clock, and NodeClaims CREATED in mid-history from the NodePool as stored at that moment (real NewNodeClaimTemplate + ToNodeClaim + PopulateNodeClaimDetails), also between a template edit and the hash controller's next run; every object's labels, annotations and Drifted condition after every step vs the Lean model, and the drift specification evaluated on what the real code did (a created NodeClaim carries the hash of the template it was created from, and is not reported Drifted for its hash unless the template changed afterwards)",
+		Doc:  "histories on the fake client: the real nodepool/hash controller and the real nodeclaim/disruption controller (drift sub-reconciler) between edits of the NodePool template/requirements, NodeClaim labels, hash / hash-version annotations, the Launched condition, provider answers (instance types, offerings — a quarter of them listed but currently unavailable, and steps in which only the availability changes —, IsDrifted, errors), the clock, and NodeClaims CREATED in mid-history from the NodePool as stored at that moment (real NewNodeClaimTemplate + ToNodeClaim + PopulateNodeClaimDetails), also between a template edit and the hash controller's next run; every object's labels, annotations and Drifted condition after every step vs the Lean model, and the drift specification evaluated on what the real code did (a created NodeClaim carries the hash of the template it was created from, and is not reported Drifted for its hash unless the template changed afterwards)",
 		N: func(t core.Tier) int {
 			if t == core.Thorough {
 				return 20000
